@@ -15,6 +15,7 @@ import (
 	"unsafe"
 	"strings"
 	"sync"
+	"sync/atomic"
 	"time"
 
 	"go.brendoncarroll.net/p2p"
@@ -106,8 +107,15 @@ func (c closeErrSwarm) Close() error {
 // memCloseErr makes the in-memory base transports of the templates report an error from Close (set per case)
 var memCloseErr bool
 
+// memQueueLen: the in-memory base drops a datagram when the destination's queue is full (it is an unreliable transport by
+// contract). The templates marked reliable assert delivery, so the queue must hold everything a case can have in flight
+// at one node even when the receiving goroutines are starved: at most 8 concurrent messages of at most 120 parts each.
+// (With 256 slots a thorough run on a loaded machine lost fragments of a 34-part message and reported the message as
+// accepted but never delivered: a false alarm of the harness, see DESIGN.md section 10.)
+const memQueueLen = 4096
+
 func memNodes(n, mtu int, layer func(i int, s dyn) (dyn, dynAsk)) ([]node, error) {
-	r := memswarm.NewRealm(memswarm.WithQueueLen(256), memswarm.WithMTU(mtu))
+	r := memswarm.NewRealm(memswarm.WithQueueLen(memQueueLen), memswarm.WithMTU(mtu))
 	var ret []node
 	for i := 0; i < n; i++ {
 		base := erase[memswarm.Addr](r.NewSwarm())
@@ -221,7 +229,7 @@ var templates = []template{
 		return ret, nil
 	}},
 	{"mbapp(mem200)", true, func(n, seed int) ([]node, error) {
-		r := memswarm.NewRealm(memswarm.WithQueueLen(256), memswarm.WithMTU(200))
+		r := memswarm.NewRealm(memswarm.WithQueueLen(memQueueLen), memswarm.WithMTU(200))
 		var ret []node
 		for i := 0; i < n; i++ {
 			mb := mbapp.New[memswarm.Addr, struct{}](p2p.ComposeSecureSwarm[memswarm.Addr, struct{}](r.NewSwarm(), noSecure[memswarm.Addr]{}), 6000)
@@ -373,6 +381,10 @@ func swarmOracle(r *rand.Rand, n int, tier string, infile string) (cases int, fa
 		cases += 2
 		for _, kind := range []string{"mem", "wl", "map", "strmux"} {
 			holdReuseCase(kind, bad)
+			cases++
+		}
+		for _, kind := range []string{"mbapp1", "mbapp", "mem", "strmux"} {
+			askHoldCase(kind, bad)
 			cases++
 		}
 		udpCtxCase(bad)
@@ -1283,7 +1295,16 @@ func askCase(r *rand.Rand, name string, nodes []node, addrs []p2p.Addr, ctx cont
 			actx, cf := context.WithTimeout(ctx, 3*time.Second)
 			defer cf()
 			buf := make([]byte, bufLen)
-			n, err := nodes[from].ask.Ask(actx, buf, addrs[to], p2p.IOVec{req})
+			defer func() {
+				if p := recover(); p != nil {
+					bad("%s: Ask with a response buffer of %d bytes, answered with %d bytes, panics: %v", name, bufLen, len(want), p)
+				}
+			}()
+			// the request is handed over as a vector of one to three segments; the handler sees their concatenation
+			// (respFor is a function of it). The vector itself may be consumed by the call ("v may be modified",
+			// swarm.go: quicswarm writes it with net.Buffers.WriteTo), so nothing is asserted about it afterwards.
+			reqVec, _ := callerVec(req)
+			n, err := nodes[from].ask.Ask(actx, buf, addrs[to], reqVec)
 			switch {
 			case err == nil && wantN < 0:
 				bad("C11 %s: handler signalled failure but Ask returned success (n=%d)", name, n)
@@ -1317,6 +1338,84 @@ func askCase(r *rand.Rand, name string, nodes []node, addrs []p2p.Addr, ctx cont
 		if !p2p.IsErrMTUExceeded(err) {
 			bad("C09 %s: Ask with a request of MTU()+1=%d bytes is not refused with the MTU error: %v", name, mtu+1, err)
 		}
+	}
+}
+
+// askHoldCase (C14, ServeAsk): the request a ServeAsk callback is given stays what it was for as long as the callback
+// runs, whatever else arrives at the node meanwhile. kind "mbapp1" is the message-box layer with ONE receive worker
+// (the next datagram is read into the very buffer the request came in), "mbapp" the default number of workers, "mem"
+// the in-memory transport, "strmux" a multiplexed channel over it.
+func askHoldCase(kind string, bad func(string, ...any)) {
+	realm := memswarm.NewRealm(memswarm.WithQueueLen(8), memswarm.WithMTU(4096))
+	type askNode interface {
+		p2p.Teller[p2p.Addr]
+		p2p.Receiver[p2p.Addr]
+		p2p.Asker[p2p.Addr]
+		p2p.AskServer[p2p.Addr]
+		LocalAddrs() []p2p.Addr
+		Close() error
+	}
+	wrap := func() askNode {
+		s := realm.NewSwarm()
+		switch kind {
+		case "mbapp1", "mbapp":
+			var opts []mbapp.Option
+			if kind == "mbapp1" {
+				opts = append(opts, mbapp.WithNumWorkers(1))
+			}
+			return eraseAsk[memswarm.Addr](mbapp.New[memswarm.Addr, struct{}](p2p.ComposeSecureSwarm[memswarm.Addr, struct{}](s, noSecure[memswarm.Addr]{}), 4096, opts...))
+		case "strmux":
+			return p2pmux.NewStringAskMux[p2p.Addr](eraseAsk[memswarm.Addr](s)).Open("c")
+		}
+		return eraseAsk[memswarm.Addr](s)
+	}
+	a, b := wrap(), wrap()
+	defer a.Close()
+	defer b.Close()
+	dst := b.LocalAddrs()[0]
+	req := bytes.Repeat([]byte{'Q'}, 64)
+	entered, release := make(chan struct{}), make(chan struct{})
+	var changed atomic.Value
+	sctx, scf := context.WithCancel(context.Background())
+	defer scf()
+	go b.ServeAsk(sctx, func(_ context.Context, resp []byte, m p2p.Message[p2p.Addr]) int {
+		entry := append([]byte{}, m.Payload...)
+		close(entered)
+		<-release
+		if !bytes.Equal(entry, m.Payload) {
+			changed.Store(fmt.Sprintf("%q -> %q", entry, m.Payload))
+		}
+		return copy(resp, "ok")
+	})
+	askDone := make(chan error, 1)
+	go func() {
+		ctx, cf := context.WithTimeout(context.Background(), 3*time.Second)
+		defer cf()
+		_, err := a.Ask(ctx, make([]byte, 16), dst, p2p.IOVec{append([]byte{}, req...)})
+		askDone <- err
+	}()
+	select {
+	case <-entered:
+	case <-time.After(2 * time.Second):
+		close(release)
+		return // the request did not arrive: nothing to observe
+	}
+	// while the callback holds the request, other messages of the same size arrive at the node
+	for k := 0; k < 3; k++ {
+		ctx, cf := context.WithTimeout(context.Background(), 200*time.Millisecond)
+		a.Tell(ctx, dst, p2p.IOVec{bytes.Repeat([]byte{'x'}, 64)})
+		cf()
+	}
+	rctx, rcf := context.WithTimeout(context.Background(), 150*time.Millisecond)
+	b.Receive(rctx, func(p2p.Message[p2p.Addr]) {})
+	rcf()
+	close(release)
+	select {
+	case <-askDone:
+	case <-time.After(3 * time.Second):
+	}
+	if c := changed.Load(); c != nil {
+		bad("C14 askhold(%s): the request a ServeAsk callback was given changed while the callback was running: %s", kind, c)
 	}
 }
 
